@@ -34,6 +34,16 @@ fn main() {
         let n = args.get(2).and_then(|s| s.parse().ok()).unwrap_or(20_000);
         std::process::exit(vharness::selftest::run(n, 1));
     }
+    if args[1] == "corpus" {
+        let (rows, unparsed) = vharness::corpus::match_test_rows();
+        let v = rows.iter().filter(|r| r.kind == vharness::corpus::RowKind::Valid).count();
+        let conv = rows.iter().filter(|r| r.kind == vharness::corpus::RowKind::Valid && vharness::ir::parse_to_ir(&r.pattern).is_ok()).count();
+        println!("rows={} valid={} convertible={} unparsed={}", rows.len(), v, conv, unparsed);
+        for r in rows.iter().take(5) {
+            println!("{:?}", r);
+        }
+        std::process::exit(0);
+    }
     if args[1] == "replay" {
         let Some(path) = args.get(2) else { usage() };
         std::process::exit(replay(path));
@@ -121,6 +131,7 @@ fn replay(path: &str) -> i32 {
             let mut st = Stats::default();
             let out = match (prop.as_str(), stream) {
                 ("C06", 1) => vharness::checks_hist::c06_case(&mut rng, &mut st),
+                ("C06", 2) => vharness::checks_hist::c06_general_case(&mut rng, &mut st),
                 ("C07", 3) => vharness::checks_hist::c07_history_case(&mut rng, &mut st),
                 ("C09", 1) => vharness::checks_hist::c09_case(&mut rng, &mut st),
                 ("C10", 1) => vharness::checks_hist::c10_case(&mut rng, &mut st),
